@@ -164,37 +164,33 @@ func (t Time) Less(input Any) (Boolean, error) {
 // Add returns the result of t with the time-valued quantity added to it.
 // Returns an error if the Quantity does not represent a valid duration.
 func (t Time) Add(input Quantity) (Time, error) {
-	duration, err := input.timeDuration()
-	if err != nil {
-		return Time{}, err
-	}
-	duration = roundToTimePrecision(timeMap[t.l], duration)
-	return Time{t.time.Add(duration), t.l}, nil
+	return t.shift(input, 1)
 }
 
 // Sub returns the result of the time-valued quantity subtracted from t.
 // Returns an error if the Quantity does not represent a valid duration.
 func (t Time) Sub(input Quantity) (Time, error) {
+	return t.shift(input, -1)
+}
+
+// shift moves the time by the quantity, converted to whole units of the time's precision,
+// wrapping around midnight.
+// Eg. 08:30 + 59 'seconds' = 08:30, but 08:30 + 60 'seconds' = 08:31
+func (t Time) shift(input Quantity, sign int) (Time, error) {
 	duration, err := input.timeDuration()
 	if err != nil {
 		return Time{}, err
 	}
-	duration = roundToTimePrecision(timeMap[t.l], duration)
-	return Time{t.time.Add(-duration), t.l}, nil
-}
-
-// roundToTimePrecision is used to round down to the highest precision of
-// the time value.
-// Eg. 08:30 + 59 'seconds' = 08:30, but 08:30 + 60 'seconds' = 08:31
-func roundToTimePrecision(p timePrecision, d time.Duration) time.Duration {
-	switch p {
+	switch timeMap[t.l] {
 	case hour:
-		return d / time.Hour
+		duration = duration / time.Hour * time.Hour
 	case minute:
-		return d / time.Minute
-	default:
-		return d
+		duration = duration / time.Minute * time.Minute
 	}
+	moved := t.time.Add(time.Duration(sign) * duration)
+	// a time of day has no date: stay on the reference day of parsed times
+	moved = time.Date(0, time.January, 1, moved.Hour(), moved.Minute(), moved.Second(), moved.Nanosecond(), time.UTC)
+	return Time{moved, t.l}, nil
 }
 
 func (t Time) getComponents() []int {
